@@ -1,21 +1,228 @@
 (* GetGuardProofs.v — C35 lemmas (no model definitions). *)
+From Coq Require Import String Ascii.
 From AG Require Import GetGuard.
 Open Scope N_scope.
 
-(* a guard on the path: no mutation resolver runs, whatever the request *)
-Lemma guarded_no_mutation : forall i d opname,
-    get_guard i = true -> mutation_runs (handle_get i d opname) = 0.
+(* readable byte strings for witnesses *)
+Definition b (s : string) : bytes := map N_of_ascii (list_ascii_of_string s).
+
+(* ------------------------------------------------------------ byte lists -- *)
+Lemma bytes_eqb_eq : forall x y, bytes_eqb x y = true <-> x = y.
 Proof.
-  intros i d opname Hg. unfold handle_get. destruct (select_op d opname) as [o|]; [|reflexivity].
+  unfold bytes_eqb, list_eqb. induction x as [|c x IH]; destruct y as [|c' y]; cbn [forallb2];
+    try (split; [discriminate|discriminate]); [tauto|].
+  rewrite andb_true_iff, N.eqb_eq, IH. split; [intros [-> ->]; reflexivity|intros H; injection H; auto].
+Qed.
+
+Lemma bytes_eqb_refl : forall x, bytes_eqb x x = true.
+Proof. intro x. now apply bytes_eqb_eq. Qed.
+
+Lemma bytes_eqb_sym : forall x y, bytes_eqb x y = bytes_eqb y x.
+Proof.
+  intros x y. destruct (bytes_eqb x y) eqn:E.
+  - apply bytes_eqb_eq in E. subst. symmetry. apply bytes_eqb_refl.
+  - destruct (bytes_eqb y x) eqn:E'; [|reflexivity]. apply bytes_eqb_eq in E'. subst.
+    rewrite bytes_eqb_refl in E. discriminate.
+Qed.
+
+Lemma is_key_In : forall keys k, is_key keys k = true <-> In k keys.
+Proof.
+  intros keys k. unfold is_key. rewrite existsb_exists. split.
+  - intros [x [Hin He]]. apply bytes_eqb_eq in He. now subst.
+  - intro H. exists k. split; [exact H|apply bytes_eqb_refl].
+Qed.
+
+(* ------------------------------------------------ the decoder is verbatim -- *)
+(* the key tables read from the source keep the four fields apart: a key of
+   the operation name is no key of a field tested before it *)
+Definition opname_keys_apart : bool :=
+  forallb (fun k => negb (is_key query_keys_pqs_gen k)) opname_keys_pqs_gen.
+
+Lemma opname_keys_apart_ok : opname_keys_apart = true.
+Proof. vm_compute. reflexivity. Qed.
+
+Lemma pqs_field_opname : forall k, pqs_field k = Some FOpName <-> is_key opname_keys_pqs_gen k = true.
+Proof.
+  intro k. unfold pqs_field. split.
+  - destruct (is_key query_keys_pqs_gen k); [discriminate|].
+    destruct (is_key opname_keys_pqs_gen k); [reflexivity|].
+    destruct (is_key variables_keys_pqs_gen k); [discriminate|].
+    destruct (is_key extensions_keys_pqs_gen k); discriminate.
+  - intro H. rewrite H.
+    destruct (is_key query_keys_pqs_gen k) eqn:Q; [|reflexivity].
+    exfalso. pose proof opname_keys_apart_ok as A. unfold opname_keys_apart in A.
+    rewrite forallb_forall in A. apply is_key_In in H. specialize (A k H). rewrite Q in A. discriminate.
+Qed.
+
+Lemma put_s_op : forall s f v s', put s f v = Some s' ->
+    match f with
+    | FOpName => s_op s = None /\ s_op s' = Some v
+    | _ => s_op s' = s_op s
+    end.
+Proof.
+  intros [sq so sv se] f v s'. destruct f; cbn [put s_query s_op s_vars s_ext]; intro H.
+  - destruct sq; [discriminate H|]. injection H as <-. reflexivity.
+  - destruct so; [discriminate H|]. injection H as <-. split; reflexivity.
+  - destruct sv; [discriminate H|]. injection H as <-. reflexivity.
+  - destruct se; [discriminate H|]. injection H as <-. reflexivity.
+Qed.
+
+(* the slot of the operation name ends up holding the value of the (only) pair
+   whose key is a key of the operation name, unchanged; it stays empty exactly
+   when there is no such pair *)
+Lemma fill_s_op : forall ps s s',
+    fill pqs_field ps s = Some s' ->
+    s_op s' = match s_op s with Some v => Some v | None => first_value opname_keys_pqs_gen ps end.
+Proof.
+  induction ps as [|[k v] r IH]; intros s s' H; cbn [fill first_value] in *.
+  - injection H as <-. destruct (s_op s); reflexivity.
+  - destruct (pqs_field k) as [f|] eqn:F.
+    + destruct (put s f v) as [s1|] eqn:P; [|discriminate].
+      apply put_s_op in P. specialize (IH _ _ H).
+      destruct (is_key opname_keys_pqs_gen k) eqn:K.
+      * apply pqs_field_opname in K. rewrite K in F. injection F as <-.
+        simpl in P. destruct P as [P0 P1]. rewrite P0. rewrite IH, P1. reflexivity.
+      * assert (f <> FOpName) as NF.
+        { intros ->. apply pqs_field_opname in F. rewrite F in K. discriminate. }
+        assert (s_op s1 = s_op s) as E by (destruct f; [exact P|exfalso; now apply NF|exact P|exact P]).
+        rewrite IH, E. reflexivity.
+    + destruct (is_key opname_keys_pqs_gen k) eqn:K.
+      * apply pqs_field_opname in K. rewrite K in F. discriminate.
+      * exact (IH _ _ H).
+Qed.
+
+Lemma decode_pqs_verbatim : forall ps q on,
+    decode_pqs_pairs ps = DReq q on -> on = first_value opname_keys_pqs_gen ps.
+Proof.
+  intros ps q on. unfold decode_pqs_pairs. destruct (fill pqs_field ps no_slots) as [s|] eqn:F; [|discriminate].
+  intro H. injection H as _ <-. now rewrite (fill_s_op _ _ _ F).
+Qed.
+
+Lemma decode_rocket_verbatim : forall ps q on,
+    decode_rocket_pairs ps = DReq q on -> on = first_value [opname_key_rocket_gen] ps.
+Proof.
+  intros ps q on. unfold decode_rocket_pairs. destruct (first_value [key_query] ps); [|discriminate].
+  intro H. now injection H as _ <-.
+Qed.
+
+(* every decoder: the decoded operation name is the wire parameter's value,
+   byte for byte; None only when the parameter is absent *)
+Lemma decode_pairs_verbatim : forall i ps q on,
+    decode_pairs i ps = DReq q on -> on = first_value (opname_keys i) ps.
+Proof.
+  intros i ps q on. unfold decode_pairs, opname_keys. destruct (get_decoder_gen i).
+  - apply decode_pqs_verbatim.
+  - apply decode_rocket_verbatim.
+Qed.
+
+Lemma decode_verbatim : forall i raw q on,
+    decode i raw = DReq q on -> on = spec_opname i raw.
+Proof. intros i raw q on. unfold decode, spec_opname. apply decode_pairs_verbatim. Qed.
+
+Lemma first_value_present : forall keys ps k v,
+    first_value keys ps = None -> In (k, v) ps -> is_key keys k = false.
+Proof.
+  induction ps as [|[k' v'] r IH]; intros k v H Hin; [contradiction|]. cbn [first_value] in H.
+  destruct (is_key keys k') eqn:K; [discriminate|]. destruct Hin as [E|Hin]; [injection E as <- <-; exact K|].
+  exact (IH _ _ H Hin).
+Qed.
+
+Lemma first_value_In : forall keys ps v, first_value keys ps = Some v -> exists k, In (k, v) ps /\ is_key keys k = true.
+Proof.
+  induction ps as [|[k' v'] r IH]; intros v H; [discriminate|]. cbn [first_value] in H.
+  destruct (is_key keys k') eqn:K.
+  - injection H as <-. exists k'. split; [now left|exact K].
+  - destruct (IH _ H) as [k [Hin Hk]]. exists k. split; [now right|exact Hk].
+Qed.
+
+(* an operation-name parameter on the wire is never dropped: whatever its
+   value (the empty string included) the decoded request carries a name *)
+Lemma decode_keeps_name : forall i ps q on k v,
+    decode_pairs i ps = DReq q on -> In (k, v) ps -> is_key (opname_keys i) k = true -> on <> None.
+Proof.
+  intros i ps q on k v D Hin Hk ->. apply decode_pairs_verbatim in D. symmetry in D.
+  rewrite (first_value_present _ _ _ _ D Hin) in Hk. discriminate.
+Qed.
+
+(* the only operation-name parameter is empty: the decoded name is Some "" *)
+Lemma decode_empty_name : forall i ps q on k,
+    decode_pairs i ps = DReq q on -> In (k, []) ps -> is_key (opname_keys i) k = true ->
+    (forall k' v', In (k', v') ps -> is_key (opname_keys i) k' = true -> v' = []) ->
+    on = Some [].
+Proof.
+  intros i ps q on k D Hin Hk Hall. pose proof (decode_keeps_name _ _ _ _ _ _ D Hin Hk) as NN.
+  apply decode_pairs_verbatim in D. destruct on as [s|]; [|exfalso; now apply NN]. symmetry in D.
+  destruct (first_value_In _ _ _ D) as [k' [Hin' Hk']]. now rewrite (Hall _ _ Hin' Hk').
+Qed.
+
+(* --------------------------------------------------- operation selection -- *)
+Lemma spec_get_operation_eq : forall d tab on, spec_get_operation d tab on = select_op d tab on.
+Proof.
+  intros d tab [s|]; [|reflexivity]. unfold spec_get_operation, select_op.
+  induction (doc_ops d) as [|o r IH]; [reflexivity|]. cbn [find]. rewrite IH. unfold op_named. cbv beta.
+  destruct (op_name o) as [id|]; [|reflexivity]. destruct (assoc id tab) as [s'|]; [|reflexivity].
+  now rewrite (bytes_eqb_sym s' s).
+Qed.
+
+(* a name selects only a NAMED operation spelled exactly like it *)
+Lemma select_named : forall d tab s o,
+    select_op d tab (Some s) = Some o -> In o (doc_ops d) /\ exists id, op_name o = Some id /\ assoc id tab = Some s.
+Proof.
+  intros d tab s o H. cbn [select_op] in H. apply find_some in H. destruct H as [Hin H]. split; [exact Hin|].
+  unfold op_named in H. destruct (op_name o) as [id|]; [|discriminate]. exists id. split; [reflexivity|].
+  destruct (assoc id tab) as [s'|]; [|discriminate]. apply bytes_eqb_eq in H. now subst.
+Qed.
+
+Lemma select_unspelled : forall d tab s,
+    (forall id s', assoc id tab = Some s' -> s' <> s) -> select_op d tab (Some s) = None.
+Proof.
+  intros d tab s H. destruct (select_op d tab (Some s)) as [o|] eqn:E; [|reflexivity].
+  apply select_named in E. destruct E as [_ [id [_ A]]]. exfalso. exact (H _ _ A eq_refl).
+Qed.
+
+(* GraphQL names are not empty: the empty name selects nothing, be the
+   document a single named, a single anonymous or several operations *)
+Lemma select_empty_name : forall d tab,
+    (forall id s', assoc id tab = Some s' -> s' <> []) -> select_op d tab (Some []) = None.
+Proof. intros d tab H. now apply select_unspelled. Qed.
+
+Lemma select_anonymous : forall d tab s o,
+    doc_ops d = [o] -> op_name o = None -> select_op d tab (Some s) = None.
+Proof.
+  intros d tab s o Hd Hn. cbn [select_op]. rewrite Hd. cbn [find]. unfold op_named. now rewrite Hn.
+Qed.
+
+(* the single-operation shortcut applies only when the name is absent *)
+Lemma select_absent : forall d tab o, select_op d tab None = Some o <-> doc_ops d = [o].
+Proof.
+  intros d tab o. cbn [select_op]. destruct (doc_ops d) as [|o1 [|o2 r]]; split; intro H; try discriminate; injection H as ->; reflexivity.
+Qed.
+
+(* --------------------------------------------------- model against spec -- *)
+Lemma designates_model : forall i raw doc tab q on,
+    decode i raw = DReq q on -> designates_mutation i raw doc tab = model_selects_mutation i raw doc tab.
+Proof.
+  intros i raw doc tab q on D. unfold designates_mutation, model_selects_mutation. rewrite D.
+  destruct doc as [d|]; [|reflexivity]. now rewrite spec_get_operation_eq, <- (decode_verbatim _ _ _ _ D).
+Qed.
+
+(* a guard on the path: no mutation resolver runs, whatever the request *)
+Lemma guarded_no_mutation : forall i raw doc tab,
+    get_guard i = true -> mutation_runs (snd (handle_get i raw doc tab)) = 0.
+Proof.
+  intros i raw doc tab Hg. unfold handle_get. destruct (decode i raw) as [|q on]; [reflexivity|]. cbn [snd].
+  unfold execute_req. destruct doc as [d|]; [|reflexivity]. destruct (select_op d tab on) as [o|]; [|reflexivity].
   unfold guarded_execute. rewrite Hg. destruct (op_ty o); reflexivity.
 Qed.
 
 (* ... and the whole property holds *)
-Lemma guarded_spec : forall i d opname,
-    get_guard i = true -> spec_ok d opname (handle_get i d opname) = true.
+Lemma guarded_spec : forall i raw doc tab,
+    get_guard i = true -> spec_ok i raw doc tab (snd (handle_get i raw doc tab)) = true.
 Proof.
-  intros i d opname Hg. unfold spec_ok. rewrite (guarded_no_mutation _ _ _ Hg). cbn [N.eqb andb].
-  unfold selects_mutation, handle_get. destruct (select_op d opname) as [o|]; [|reflexivity].
+  intros i raw doc tab Hg. unfold spec_ok. rewrite (guarded_no_mutation _ _ _ _ Hg). cbn [N.eqb andb].
+  unfold handle_get. destruct (decode i raw) as [|q on] eqn:D; [cbn [snd is_error]; apply orb_true_r|]. cbn [snd].
+  rewrite (designates_model _ _ _ _ _ _ D). unfold model_selects_mutation, execute_req. rewrite D.
+  destruct doc as [d|]; [|reflexivity]. destruct (select_op d tab on) as [o|]; [|reflexivity].
   unfold guarded_execute. rewrite Hg. destruct (op_ty o); reflexivity.
 Qed.
 
@@ -24,57 +231,201 @@ Lemma guard_keeps_queries : forall g g' o,
     op_ty o = OpQuery -> guarded_execute g o = guarded_execute g' o.
 Proof. intros g g' o H. unfold guarded_execute. now rewrite H. Qed.
 
-(* no guard: every selected mutation with a root field runs its resolvers *)
-Lemma unguarded_runs : forall i d opname o,
-    get_guard i = false -> select_op d opname = Some o -> op_ty o = OpMutation ->
-    handle_get i d opname = GRan 0 (root_fields (op_sels o)).
+(* no guard: every selected mutation runs its resolvers *)
+Lemma unguarded_runs : forall i raw d tab q on o,
+    get_guard i = false -> decode i raw = DReq q on -> select_op d tab on = Some o -> op_ty o = OpMutation ->
+    handle_get i raw (Some d) tab = (DReq q on, GRan 0 (root_fields (op_sels o))).
 Proof.
-  intros i d opname o Hg Hs Ht. unfold handle_get. rewrite Hs. unfold guarded_execute. now rewrite Ht, Hg.
+  intros i raw d tab q on o Hg D Hs Ht. unfold handle_get, execute_req. rewrite D, Hs. unfold guarded_execute.
+  now rewrite Ht, Hg.
 Qed.
 
-(* the verdict of the correspondence files: outside the known class the model
-   satisfies the specification *)
-Lemma check_complete : forall i d opname,
-    known_class i d opname = 0 -> spec_ok d opname (handle_get i d opname) = true.
+(* outside the known class the model satisfies the specification *)
+Lemma check_complete : forall i raw doc tab,
+    known_class i raw doc tab = 0 -> spec_ok i raw doc tab (snd (handle_get i raw doc tab)) = true.
 Proof.
-  intros i d opname Hk. unfold known_class in Hk.
+  intros i raw doc tab Hk. unfold known_class in Hk.
   destruct (get_guard i) eqn:Hg; [now apply guarded_spec|]. cbn [negb andb] in Hk.
-  destruct (selects_mutation d opname) eqn:Hm; [discriminate|].
-  unfold spec_ok. rewrite Hm. cbn [negb orb]. rewrite andb_true_r.
-  unfold selects_mutation in Hm. unfold handle_get.
-  destruct (select_op d opname) as [o|]; [|reflexivity].
+  destruct (model_selects_mutation i raw doc tab) eqn:Hm; [discriminate|].
+  unfold spec_ok, handle_get. destruct (decode i raw) as [|q on] eqn:D;
+    [cbn [snd mutation_runs is_error N.eqb andb]; apply orb_true_r|]. cbn [snd].
+  rewrite (designates_model _ _ _ _ _ _ D), Hm. cbn [negb orb]. rewrite andb_true_r.
+  unfold model_selects_mutation in Hm. rewrite D in Hm. unfold execute_req.
+  destruct doc as [d|]; [|reflexivity]. destruct (select_op d tab on) as [o|]; [|reflexivity].
   unfold guarded_execute. destruct (op_ty o); try reflexivity. discriminate.
 Qed.
 
-(* witnesses: `mutation { m }` and a mixed document selected by name *)
+(* inside it the model itself executes the mutation operation (so the model
+   fails the specification there): the class excuses nothing else *)
+Lemma known_sound : forall i raw doc tab,
+    known_class i raw doc tab <> 0 ->
+    (exists k, snd (handle_get i raw doc tab) = GRan 0 k) /\
+    spec_ok i raw doc tab (snd (handle_get i raw doc tab)) = false.
+Proof.
+  intros i raw doc tab Hk. unfold known_class in Hk.
+  destruct (get_guard i) eqn:Hg; [exfalso; apply Hk; reflexivity|]. cbn [negb andb] in Hk.
+  destruct (model_selects_mutation i raw doc tab) eqn:Hm; [|exfalso; apply Hk; reflexivity].
+  unfold spec_ok, handle_get. pose proof Hm as Hm'. unfold model_selects_mutation in Hm.
+  destruct (decode i raw) as [|q on] eqn:D; [discriminate Hm|]. cbn [snd].
+  rewrite (designates_model _ _ _ _ _ _ D), Hm'. unfold execute_req.
+  destruct doc as [d|]; [|discriminate Hm]. destruct (select_op d tab on) as [o|]; [|discriminate Hm].
+  unfold guarded_execute. rewrite Hg. destruct (op_ty o); try discriminate Hm.
+  split; [eexists; reflexivity|]. cbn [is_error negb orb]. apply andb_false_r.
+Qed.
+
+Lemma model_error_not_known : forall i raw doc tab,
+    snd (handle_get i raw doc tab) = GError -> known_class i raw doc tab = 0.
+Proof.
+  intros i raw doc tab H. destruct (N.eq_dec (known_class i raw doc tab) 0) as [E|E]; [exact E|].
+  apply known_sound in E. destruct E as [[k E] _]. rewrite H in E. discriminate.
+Qed.
+
+(* the verdict never excuses a departure from the model on an input where the
+   model satisfies the specification: only 0 (agrees), 3 (differs, harmless) or
+   4 (differs and breaks the property) are possible there *)
+Lemma no_excuse : forall i raw doc tab impl_d impl_r,
+    spec_ok i raw doc tab (snd (handle_get i raw doc tab)) = true ->
+    check_case i raw doc tab impl_d impl_r = 0 \/
+    check_case i raw doc tab impl_d impl_r = 3 \/
+    check_case i raw doc tab impl_d impl_r = 4.
+Proof.
+  intros i raw doc tab impl_d impl_r H. unfold check_case.
+  destruct (get_guard_local_gen i); [now left|].
+  assert (known_class i raw doc tab = 0) as K.
+  { destruct (N.eq_dec (known_class i raw doc tab) 0) as [E|E]; [exact E|].
+    apply known_sound in E. destruct E as [_ E]. rewrite H in E. discriminate. }
+  destruct (handle_get i raw doc tab) as [md mr]. cbn [snd] in H. cbv beta iota. rewrite H, K. unfold verdict.
+  destruct (dreq_eqb impl_d md && gresult_eqb impl_r mr); [now left|].
+  destruct (spec_ok i raw doc tab impl_r); [right; now left|right; now right].
+Qed.
+
+(* the model answers with an error and a mutation resolver ran: verdict 4 *)
+Lemma violation_verdict : forall i raw doc tab impl_d impl_r,
+    get_guard_local_gen i = false ->
+    snd (handle_get i raw doc tab) = GError -> mutation_runs impl_r <> 0 ->
+    check_case i raw doc tab impl_d impl_r = 4.
+Proof.
+  intros i raw doc tab impl_d impl_r Hl H Hr. unfold check_case. rewrite Hl.
+  rewrite (model_error_not_known _ _ _ _ H).
+  destruct (handle_get i raw doc tab) as [md mr]. cbn [snd] in H. subst mr. cbv beta iota.
+  destruct impl_r as [|qr m]; [exfalso; apply Hr; reflexivity|]. cbn [mutation_runs] in Hr.
+  cbn [gresult_eqb]. rewrite andb_false_r.
+  assert (spec_ok i raw doc tab (GRan qr m) = false) as S.
+  { unfold spec_ok. cbn [mutation_runs]. apply N.eqb_neq in Hr. now rewrite Hr. }
+  rewrite S. unfold verdict. destruct (spec_ok i raw doc tab GError); reflexivity.
+Qed.
+
+(* an empty operation name is answered with an error by every integration,
+   guarded or not, whatever the document *)
+Lemma empty_name_is_error : forall i raw doc tab q,
+    decode i raw = DReq q (Some []) ->
+    (forall id s', assoc id tab = Some s' -> s' <> []) ->
+    handle_get i raw doc tab = (DReq q (Some []), GError).
+Proof.
+  intros i raw doc tab q D Hn. unfold handle_get, execute_req. rewrite D.
+  destruct doc as [d|]; [|reflexivity]. now rewrite (select_empty_name _ _ Hn).
+Qed.
+
+(* ------------------------------------------------------------- witnesses -- *)
+(* `mutation { m }`, `mutation M { m }` and a mixed document selected by name *)
 Definition mut_doc : document :=
   {| doc_ops := [{| op_name := None; op_ty := OpMutation; op_vars := []; op_dirs := [];
                     op_sels := [SField None 9 [] [] []] |}];
      doc_frags := [] |}.
+Definition named_mut_doc : document :=
+  {| doc_ops := [{| op_name := Some 22; op_ty := OpMutation; op_vars := []; op_dirs := [];
+                    op_sels := [SField None 9 [] [] []] |}];
+     doc_frags := [] |}.
+Definition named_mut_tab : nametab := [(22, b "M")].
 Definition mixed_doc : document :=
   {| doc_ops := [{| op_name := Some 20; op_ty := OpQuery; op_vars := []; op_dirs := [];
                     op_sels := [SField None 8 [] [] []] |};
                  {| op_name := Some 21; op_ty := OpMutation; op_vars := []; op_dirs := [];
                     op_sels := [SField None 9 [] [] []; SField (Some 30) 9 [] [] []] |}];
      doc_frags := [] |}.
+Definition mixed_tab : nametab := [(20, b "A"); (21, b "B")].
+
+Definition raw_mut : bytes := b "query=mutation%20%7B%20m%20%7D".
+Definition raw_mixed_q : bytes := b "query=query%20A%20%7B%20q%20%7D%20mutation%20B%20%7B%20m%20b%3A%20m%20%7D".
+(* the operation name under the first wire key the integration's decoder reads *)
+Definition raw_mixed (i : integ) (nm : string) : bytes :=
+  raw_mixed_q ++ [c_amp] ++ hd [] (opname_keys i) ++ [c_eq] ++ b nm.
+Definition raw_named_mut (i : integ) (nm : string) : bytes :=
+  b "query=mutation+M+%7B+m+%7D&" ++ hd [] (opname_keys i) ++ [c_eq] ++ b nm.
+
+Ltac by_decoder i :=
+  unfold raw_mixed, raw_named_mut, known_class, spec_ok, designates_mutation, spec_opname, model_selects_mutation,
+    handle_get, decode, decode_pairs, opname_keys;
+  destruct (get_decoder_gen i).
 
 (* for each integration without a guard, GET executes mutations *)
 Lemma unguarded_refuted : forall i,
     get_guard i = false ->
-    mutation_runs (handle_get i mut_doc None) = 1 /\
-    mutation_runs (handle_get i mixed_doc (Some 21)) = 2 /\
-    spec_ok mut_doc None (handle_get i mut_doc None) = false /\
-    known_class i mut_doc None = 1.
+    mutation_runs (snd (handle_get i raw_mut (Some mut_doc) [])) = 1 /\
+    mutation_runs (snd (handle_get i (raw_mixed i "B") (Some mixed_doc) mixed_tab)) = 2 /\
+    spec_ok i raw_mut (Some mut_doc) [] (snd (handle_get i raw_mut (Some mut_doc) [])) = false /\
+    known_class i raw_mut (Some mut_doc) [] = 1.
 Proof.
-  intros i Hg. unfold known_class, spec_ok, handle_get, guarded_execute. rewrite Hg.
-  repeat split; reflexivity.
+  intros i Hg. by_decoder i; rewrite Hg; vm_compute; repeat split; reflexivity.
 Qed.
 
-(* non-vacuity: the same requests under a guard, and a query through any path *)
+(* non-vacuity: a query selected by name runs through any path; under a guard
+   the mutation is refused; no name on a mixed document is an error *)
 Lemma nonvacuous : forall i,
-    handle_get i mixed_doc (Some 20) = GRan 1 0 /\
-    (get_guard i = true -> handle_get i mixed_doc (Some 21) = GError) /\
-    handle_get i mixed_doc None = GError.
+    snd (handle_get i (raw_mixed i "A") (Some mixed_doc) mixed_tab) = GRan 1 0 /\
+    (get_guard i = true -> snd (handle_get i (raw_mixed i "B") (Some mixed_doc) mixed_tab) = GError) /\
+    snd (handle_get i raw_mixed_q (Some mixed_doc) mixed_tab) = GError /\
+    known_class i (raw_mixed i "A") (Some mixed_doc) mixed_tab = 0.
 Proof.
-  intro i. unfold handle_get, guarded_execute. cbn. repeat split. intros ->. reflexivity.
+  intro i. repeat split.
+  - by_decoder i; vm_compute; reflexivity.
+  - intro Hg. by_decoder i; rewrite Hg; vm_compute; reflexivity.
+  - by_decoder i; vm_compute; reflexivity.
+  - by_decoder i; rewrite andb_comm; vm_compute; reflexivity.
 Qed.
+
+(* the sub-case of the property that holds on every integration today:
+   GET `mutation M { m }` with an empty / blank / non-matching operation name is
+   decoded with that very name, answered with an error, lies in no known class,
+   and a mutation resolver running there is verdict 4 *)
+Lemma named_mutation_wrong_name : forall i,
+    handle_get i (raw_named_mut i "") (Some named_mut_doc) named_mut_tab = (DReq (b "mutation M { m }") (Some []), GError) /\
+    handle_get i (raw_named_mut i "+") (Some named_mut_doc) named_mut_tab = (DReq (b "mutation M { m }") (Some [c_sp]), GError) /\
+    handle_get i (raw_named_mut i "%4D%20") (Some named_mut_doc) named_mut_tab = (DReq (b "mutation M { m }") (Some (b "M ")), GError) /\
+    handle_get i (raw_named_mut i "m") (Some named_mut_doc) named_mut_tab = (DReq (b "mutation M { m }") (Some (b "m")), GError) /\
+    known_class i (raw_named_mut i "") (Some named_mut_doc) named_mut_tab = 0 /\
+    (get_guard i = false ->
+     handle_get i (raw_named_mut i "%4D") (Some named_mut_doc) named_mut_tab = (DReq (b "mutation M { m }") (Some (b "M")), GRan 0 1)).
+Proof.
+  intro i. repeat split; try (by_decoder i; vm_compute; reflexivity).
+  - by_decoder i; rewrite andb_comm; vm_compute; reflexivity.
+  - intro Hg. by_decoder i; rewrite Hg; vm_compute; reflexivity.
+Qed.
+
+Lemma empty_name_run_is_violation : forall i impl_d q m,
+    get_guard_local_gen i = false -> m <> 0 ->
+    check_case i (raw_named_mut i "") (Some named_mut_doc) named_mut_tab impl_d (GRan q m) = 4.
+Proof.
+  intros i impl_d q m Hl Hm. apply violation_verdict; [exact Hl| |exact Hm].
+  destruct (named_mutation_wrong_name i) as [H _]. now rewrite H.
+Qed.
+
+(* same with an anonymous mutation: the empty name never falls back to the
+   single-operation shortcut *)
+Lemma anonymous_mutation_empty_name : forall i,
+    handle_get i (raw_mut ++ [c_amp] ++ hd [] (opname_keys i) ++ [c_eq]) (Some mut_doc) [] =
+    (DReq (b "mutation { m }") (Some []), GError).
+Proof. intro i. by_decoder i; vm_compute; reflexivity. Qed.
+
+(* wire forms: percent-encoded keys, '+', a stray '%', empty pieces, a key
+   without '=', duplicates *)
+Example wire_forms :
+    parse_pairs (b "&&query=%7Bq%7D&operation%4Eame=a%2Bb+c%&x&=y&") =
+      [(b "query", b "{q}"); (b "operationName", b "a+b c%"); (b "x", []); ([], b "y")] /\
+    decode_pqs_pairs (parse_pairs (b "query=%7Bq%7D&operationName=&operation_name=A")) = DErr /\
+    decode_pqs_pairs (parse_pairs (b "operationName=A&operationName=A")) = DErr /\
+    decode_pqs_pairs (parse_pairs (b "operation_name=")) = DReq [] (Some []) /\
+    decode_pqs_pairs (parse_pairs (b "query=a&operationname=A&OperationName=B")) = DReq (b "a") None /\
+    decode_rocket_pairs (parse_pairs (b "query=a&operationName=&operationName=B")) = DReq (b "a") (Some []) /\
+    decode_rocket_pairs (parse_pairs (b "operationName=B")) = DErr.
+Proof. vm_compute. repeat split; reflexivity. Qed.
